@@ -814,4 +814,84 @@ theorem pin_budget (p : Policy) (hm : p.mode = .enforce) (k : Kind) (hk : k.isAg
         simp only [pinRun, pinStep]
         exact key sh h Pin.live (fun s => rfl)
 
+/-! ### forwarder mode -/
+
+theorem apiStep_outbound (p : Policy) (hm : p.mode = .enforce) (sh : Shared) (op : ApiOp) :
+    ((apiStep p sh op).2 = .ok ∧ op.isOutboundDebit = true ∧ sh.ctr.get .outbound < p.caps.get .outbound ∧
+        (apiStep p sh op).1.ctr.get .outbound = sh.ctr.get .outbound + 1) ∨
+    ((op.isOutboundDebit = false ∨ (apiStep p sh op).2 ≠ .ok) ∧
+        (apiStep p sh op).1.ctr.get .outbound = sh.ctr.get .outbound) := by
+  cases op with
+  | debit k latch =>
+    simp only [apiStep]
+    by_cases hagg : k.isAggregate = true
+    · simp only [hagg, if_true]
+      rcases debit_enforce_cases p hm sh .outbound k latch with ⟨h1, e, _, hlt, hs⟩ | ⟨hne, hs⟩
+      · subst e
+        left
+        exact ⟨h1, rfl, hlt, hs⟩
+      · right
+        refine ⟨?_, hs⟩
+        rcases hne with hne | hne | hne
+        · left
+          cases k <;> first | rfl | exact absurd rfl hne
+        · exact Or.inr hne
+        · cases hne
+    · have : k.isAggregate = false := by simpa using hagg
+      simp only [this, Bool.false_eq_true, if_false]
+      right
+      constructor
+      · left
+        cases k <;> first | rfl | exact absurd rfl hagg
+      · trivial
+  | check k used latch =>
+    right
+    refine ⟨Or.inl rfl, ?_⟩
+    simp only [apiStep]
+    split
+    · rfl
+    · unfold checkLocal markExhausted
+      split
+      · rfl
+      · split
+        · rfl
+        · split
+          · split <;> rfl
+          · rfl
+  | reject k latch =>
+    right
+    refine ⟨Or.inl rfl, ?_⟩
+    simp only [apiStep]
+    split
+    · rfl
+    · unfold reject markExhausted
+      split
+      · rfl
+      · split <;> rfl
+  | enf => right; exact ⟨Or.inl rfl, rfl⟩
+
+theorem runOps_outbound (p : Policy) (hm : p.mode = .enforce) (ops : List ApiOp) (sh : Shared)
+    (h : sh.ctr.get .outbound ≤ p.caps.get .outbound) :
+    (runOps p sh ops).2.1 + sh.ctr.get .outbound ≤ p.caps.get .outbound := by
+  induction ops generalizing sh with
+  | nil => simpa [runOps] using h
+  | cons op t ih =>
+    simp only [runOps]
+    have hc := apiStep_outbound p hm sh op
+    generalize apiStep p sh op = r at hc
+    obtain ⟨sh', res⟩ := r
+    simp only at hc
+    cases res with
+    | ok =>
+      simp only
+      rcases hc with ⟨_, ho, hlt, hs⟩ | ⟨hne, hs⟩
+      · have := ih sh' (by omega)
+        simp only [ho, if_true]
+        omega
+      · have := ih sh' (by omega)
+        rcases hne with hne | hne
+        · simp only [hne, Bool.false_eq_true, if_false]; omega
+        · exact absurd rfl hne
+    | limit a b => simp only; omega
+
 end SdnsVerif.Lemmas.Work
